@@ -4,6 +4,7 @@
 import OptreeModel.Model.STree
 import OptreeModel.Model.Sexp
 import OptreeModel.Model.Ops
+import OptreeModel.Model.PrefixErrors
 import OptreeModel.Model.OrderSM
 import OptreeModel.Model.RegSM
 import OptreeModel.Model.Twins
@@ -614,6 +615,14 @@ def evalOp (st : DriverState) : Sexp → Res Sexp
       let strict ← Res.ofDec (decBool strict)
       let r ← Res.ofExcept (isPrefix a b strict)
       pure (encOk [Sexp.bool r])
+  | .list [.atom "prefix_errors", cfg, p, t] => do
+      let cfg ← Res.ofDec (decCfg st cfg)
+      let p ← Res.ofDec (decObj p)
+      let t ← Res.ofDec (decObj t)
+      let es ← Res.ofExcept (prefixErrors cfg p t)
+      let kindName : PErr → String := fun k => match k with
+        | .types => "types" | .keys => "keys" | .arity => "arity" | .metadata => "metadata"
+      pure (encOk (es.map fun e => l [.atom (kindName e.1), encPath e.2]))
   | .list [.atom "flatten_up_to", s, tree] => do
       let sp ← evalSpec st s
       let t ← Res.ofDec (decObj tree)
